@@ -48,7 +48,7 @@ def _cells(fe, text_line, port_len, nports):
     return cells, text_line[pos - 2:]
 
 
-def _report_concrete(layout, shape, lat_idx, unk, notbound, vals, ignore_unknown, arch_w, length_w, lcd_w, comment_line):
+def _report_concrete(layout, shape, lat_idx, unk, notbound, vals, ignore_unknown, arch_w, length_w, lcd_w, comment_line, unk_kind=0, load_stage=False):
     ports = LAYOUTS[layout]
     n = 3
     kernel = []
@@ -56,17 +56,22 @@ def _report_concrete(layout, shape, lat_idx, unk, notbound, vals, ignore_unknown
     for i, (rs, w) in enumerate(SHAPES[shape]):
         flags = []
         if unk[i]:
-            flags += [INSTR_FLAGS.TP_UNKWN, INSTR_FLAGS.LT_UNKWN]
+            # unk_kind 0: unknown mnemonic (both flags); 1: entry without throughput; 2: entry without latency
+            flags += [[INSTR_FLAGS.TP_UNKWN, INSTR_FLAGS.LT_UNKWN], [INSTR_FLAGS.TP_UNKWN], [INSTR_FLAGS.LT_UNKWN]][unk_kind]
+        if load_stage and i == 1 and not unk[i]:
+            flags.append(INSTR_FLAGS.HAS_LD)       # separately modelled load stage: latency_cp differs from latency
         if notbound[i]:
             flags.append(INSTR_FLAGS.NOT_BOUND)
         pressure = [0.0] * len(ports)
         uops = []
-        if not unk[i]:
+        if not (unk[i] and unk_kind != 2):
             pressure[i % len(ports)] = VALUES[vals[i]]
             pressure[-1] = VALUES[vals[(i + 1) % 3]] / 2
             uops = [[1, [ports[i % len(ports)]]], [1, [ports[-1]]]]
-        k = iform(i + 1, src=[class_reg("x86", c) for c in rs], dst=[class_reg("x86", w)], lat=(0.0 if unk[i] else lats[i]),
-                  tp=(0.0 if unk[i] else 1.0), flags=flags, pressure=pressure, uops=uops, line="op%d  %%r%d" % (i, i))
+        tp_unknown = INSTR_FLAGS.TP_UNKWN in flags
+        k = iform(i + 1, src=[class_reg("x86", c) for c in rs], dst=[class_reg("x86", w)], lat=(0.0 if INSTR_FLAGS.LT_UNKWN in flags else lats[i]),
+                  wo=(lats[i] / 4 if (load_stage and i == 1 and not unk[i]) else None),
+                  tp=(0.0 if tp_unknown else 1.0), flags=flags, pressure=pressure, uops=uops, line="op%d  %%r%d" % (i, i))
         k._comment_id = None
         kernel.append(k)
     if comment_line:
@@ -92,7 +97,7 @@ def _report_concrete(layout, shape, lat_idx, unk, notbound, vals, ignore_unknown
     need(("You are analyzing a large amount of instruction forms" in text) == length_w, "length warning")
     need(("LCD analysis timed out" in text) == lcd_w, "lcd warning")
     need(("ArchWarning" in d["Warnings"]) == arch_w and ("LengthWarning" in d["Warnings"]) == length_w and ("LCDWarning" in d["Warnings"]) == lcd_w, "dict warnings")
-    n_unknown = sum(1 for u in unk if u)
+    n_unknown = sum(1 for k in kernel if INSTR_FLAGS.TP_UNKWN in k.flags)
     need(("UnknownInstrWarning" in d["Warnings"]) == (n_unknown > 0), "dict unknown warning")
     missing = re.search(r"The performance data for (\d+) instructions is missing", text)
     expect_missing = n_unknown > 0 and not ignore_unknown
@@ -184,10 +189,10 @@ def _report_concrete(layout, shape, lat_idx, unk, notbound, vals, ignore_unknown
 
 
 def report(layout: int, shape: int, l0: int, l1: int, l2: int, u0: bool, u1: bool, u2: bool, nb: bool, v0: int, v1: int, v2: int,
-           ignore_unknown: bool, arch_w: bool, length_w: bool, lcd_w: bool, comment_line: bool) -> bool:
+           ignore_unknown: bool, arch_w: bool, length_w: bool, lcd_w: bool, comment_line: bool, unk_kind: int, load_stage: bool) -> bool:
     """
     pre: 0 <= layout < 3 and 0 <= shape < 4 and 0 <= l0 < 4 and 0 <= l1 < 4 and 0 <= l2 < 4
-    pre: 0 <= v0 < 7 and 0 <= v1 < 7 and 0 <= v2 < 7
+    pre: 0 <= v0 < 7 and 0 <= v1 < 7 and 0 <= v2 < 7 and 0 <= unk_kind <= 2
     post: _
     """
     if skip(locals()):
@@ -201,16 +206,20 @@ def report(layout: int, shape: int, l0: int, l1: int, l2: int, u0: bool, u1: boo
         groups += 1
     if u0 or u1 or u2 or nb or ignore_unknown:
         groups += 1
+    elif unk_kind != 0:
+        return True
     if v0 != 1 or v1 != 1 or v2 != 1:
         groups += 1
     if arch_w or length_w or lcd_w or comment_line:
+        groups += 1
+    if load_stage:
         groups += 1
     if groups > 1:
         return True
     ok, nt, sample = native(_report_concrete, pick(layout, 3), pick(shape, 4), [pick(l0, 4), pick(l1, 4), pick(l2, 4)],
                             [True if u0 else False, True if u1 else False, True if u2 else False], [True if nb else False, False, False],
                             [pick(v0, 7), pick(v1, 7), pick(v2, 7)], True if ignore_unknown else False, True if arch_w else False,
-                            True if length_w else False, True if lcd_w else False, True if comment_line else False)
+                            True if length_w else False, True if lcd_w else False, True if comment_line else False, pick(unk_kind, 3), True if load_stage else False)
     return verdict(ok, nontrivial=nt, sample=sample)
 
 
@@ -249,7 +258,7 @@ def cli_warnings(a64: bool, with_arch: bool, size: int, marked: bool) -> bool:
 
 
 CELLS = {
-    "report": {"fn": report, "bound": "3-instruction kernels over 4 dependency shapes x 3 port layouts (incl. shared-number ports 0/0DV) with one dimension group varied at a time: latencies from {0,1,3,12.5}; unknown / not-bound flags x --ignore-unknown; pressure values from {0,.5,9.99,9.995,10,99.99,100.25}; arch/length/LCD warnings and a comment-only line",
+    "report": {"fn": report, "bound": "3-instruction kernels over 4 dependency shapes x 3 port layouts (incl. shared-number ports 0/0DV) with one dimension group varied at a time: latencies from {0,1,3,12.5}; unknown mnemonic / missing throughput only / missing latency only / not-bound flags x --ignore-unknown; a line with a separately modelled load stage (CP share differs from its latency); pressure values from {0,.5,9.99,9.995,10,99.99,100.25}; arch/length/LCD warnings and a comment-only line",
                "budget": {"quick": 170, "thorough": 900}, "shards": 16},
     "cli_warnings": {"fn": cli_warnings, "bound": "real CLI on generated files: {x86, AArch64} x {--arch given or not} x {3, 100, 101 lines} x {marked, unmarked}", "budget": {"quick": 170, "thorough": 300}, "shards": 4},
 }
